@@ -14,6 +14,8 @@ def run(facts, tier):
         ("intersection rebuild", U.intersection_rebuild, 1, "matched entries moved out of the table are always re-inserted"),
         ("screens", lambda fa: T.screens(fa, ("theta/", "tuple/")), 9, "keys obey the strict Theta screens"),
         ("early stops", T.early_breaks, 5, "ordered-only shortcuts guarded by the right input"),
+        ("ordered flag", T.ordered_flag_validity, 3, "a compact sketch that claims is_ordered_ has sorted entries: whenever the flag becomes true for an unordered source the guarded std::sort runs (truth table over other.is_ordered() x ordered)"),
+        ("union reset", T.builder_reset, 2, "reset() restores the starting theta; the union's cached theta is re-read after the table reset"),
         ("theta writes", T.theta_writes, 5, "theta monotone"),
         ("duplicates/emptiness", T.emptiness_and_duplicates, 3, "insert only after a failed find (Theta and Tuple update paths)"),
         ("tautologies", lambda fa: generic_lints.tautologies(fa, ('theta/', 'tuple/')), 2, "no comparison / assignment / min-max with two identical operands, no if-else with identical arms"),
